@@ -32,9 +32,15 @@ Open Scope N_scope.
 (* The synchronous file API the ring is compared with.  fd, offset, length are
    numbers, data are byte lists; results are the values a CQE carries (byte
    count >= 0, or a negative errno). *)
+(* what a descriptor is used for: a read needs read access, a write needs
+   write access, fsync only needs the descriptor to be open *)
+Inductive use := URead | UWrite | USync.
+
 Record fsapi := {
   FS : Type;
-  fs_open  : FS -> N -> bool;                            (* fd is in Fs::open_handles *)
+  fs_ok    : FS -> N -> use -> bool;                     (* fd is in Fs::open_handles and was opened with
+                                                            the access this use needs (Fs::unreadable_fds /
+                                                            unwritable_fds) *)
   fs_read  : FS -> N -> N -> N -> FS * Z * list N;       (* fd off len -> state, result, bytes put in the buffer *)
   fs_write : FS -> N -> N -> list N -> FS * Z;           (* fd off data *)
   fs_fsync : FS -> N -> FS * Z }.
@@ -226,10 +232,10 @@ Variable A : fsapi.
 Definition exec (fs : FS A) (a : apply) : FS A * Z * list N :=
   match a with
   | AErr e => (fs, e, [])
-  | ARead fd off len => if fs_open A fs fd then fs_read A fs fd off len else (fs, EBADF, [])
-  | AWrite fd off d => if fs_open A fs fd then let '(fs', z) := fs_write A fs fd off d in (fs', z, [])
+  | ARead fd off len => if fs_ok A fs fd URead then fs_read A fs fd off len else (fs, EBADF, [])
+  | AWrite fd off d => if fs_ok A fs fd UWrite then let '(fs', z) := fs_write A fs fd off d in (fs', z, [])
                        else (fs, EBADF, [])
-  | AFsync fd => if fs_open A fs fd then let '(fs', z) := fs_fsync A fs fd in (fs', z, [])
+  | AFsync fd => if fs_ok A fs fd USync then let '(fs', z) := fs_fsync A fs fd in (fs', z, [])
                  else (fs, EBADF, [])
   end.
 
